@@ -78,6 +78,7 @@ type SessSpec struct {
 	Rollbacks  map[int]uint64        `json:"rollbacks,omitempty"` // vb -> R: the first stream request of vb is answered ROLLBACK(R)
 	RollbackAt map[int]int           `json:"rollback_at,omitempty"` // vb -> which request (1-based) gets the ROLLBACK answer (default 1)
 	ReqFail    map[int][2]int        `json:"req_fail,omitempty"`    // vb -> (request index, status): that stream request is answered with an error status
+	ReqHold    map[int]int           `json:"req_hold,omitempty"`    // vb -> request index whose reply is held until a "releasereq" step
 	Failover   map[int][][2]uint64   `json:"failover,omitempty"`  // vb -> failover log (uuid, seq), newest first
 	CBFaults   []CBFault             `json:"cb_faults,omitempty"` // faults on checkpoint xattr writes (couchbase back end)
 	Membership string                `json:"membership,omitempty"` // "" static 1/1 | dynamic (fed through PUT /membership/info)
@@ -88,6 +89,14 @@ type SessSpec struct {
 	Highs      map[int]uint64        `json:"highs,omitempty"`       // scripted vBucket high seqnos (synthetic, no items needed)
 	CollHighs  map[int]uint64        `json:"coll_highs,omitempty"`  // scripted high seqno of the configured collections per vBucket
 	Corrupt    []int                 `json:"corrupt,omitempty"`     // vBuckets whose stored checkpoint xattr is not valid JSON (couchbase back end)
+}
+
+// MetricScrape is one GET /metrics.
+type MetricScrape struct {
+	TCall, TRet int64
+	OK          bool
+	Err         string
+	Vals        map[string]float64 // "name{labels}" -> value
 }
 
 // Read is one scrape of GET /states/offset.
@@ -154,6 +163,7 @@ type Trace struct {
 	Cfg *config.Dcp
 	Checks []*StoreCheck
 	Reads  []*Read
+	Metrics []*MetricScrape
 	APIPort int
 	readMu sync.Mutex
 }
@@ -215,6 +225,38 @@ type session struct {
 	rng     *rand.Rand
 	stopReaders []chan struct{}
 	readerWG    sync.WaitGroup
+}
+
+// readMetrics scrapes GET /metrics (Prometheus text format).
+func (s *session) readMetrics() *MetricScrape {
+	m := &MetricScrape{Vals: map[string]float64{}}
+	m.TCall = evlog.Tick()
+	code, body, err := hx.HTTPDo("GET", fmt.Sprintf("http://127.0.0.1:%d/metrics", s.tr.APIPort), "", 10*time.Second)
+	m.TRet = evlog.Tick()
+	if err != nil {
+		m.Err = err.Error()
+	} else if code != 200 {
+		m.Err = fmt.Sprintf("status %d: %s", code, body)
+	} else {
+		m.OK = true
+		for _, ln := range strings.Split(body, "\n") {
+			if ln == "" || ln[0] == '#' {
+				continue
+			}
+			i := strings.LastIndexByte(ln, ' ')
+			if i < 0 {
+				continue
+			}
+			var v float64
+			if _, err := fmt.Sscan(ln[i+1:], &v); err == nil {
+				m.Vals[ln[:i]] = v
+			}
+		}
+	}
+	s.tr.readMu.Lock()
+	s.tr.Metrics = append(s.tr.Metrics, m)
+	s.tr.readMu.Unlock()
+	return m
 }
 
 // readOffsets scrapes GET /states/offset and records call/return ticks and the per-vBucket positions.
@@ -305,7 +347,8 @@ func RunSession(spec *SessSpec) *Trace {
 		}
 		env.Sim.SetFailover(uint16(vb), f)
 	}
-	if len(spec.Rollbacks) > 0 || len(spec.ReqFail) > 0 {
+	reqHoldCh := make(chan struct{})
+	if len(spec.Rollbacks) > 0 || len(spec.ReqFail) > 0 || len(spec.ReqHold) > 0 {
 		var rmu sync.Mutex
 		nreq := map[int]int{}
 		env.Sim.Hook = func(r *cbsim.Req) *cbsim.Action {
@@ -317,6 +360,10 @@ func RunSession(spec *SessSpec) *Trace {
 			nreq[int(r.VB)]++
 			if rf, ok := spec.ReqFail[int(r.VB)]; ok && rf[0] == nreq[int(r.VB)] {
 				return &cbsim.Action{HasStatus: true, Status: uint16(rf[1])}
+			}
+			if rh, ok := spec.ReqHold[int(r.VB)]; ok && rh == nreq[int(r.VB)] {
+				env.Log.Add(evlog.Rec{K: "sim.hold", VB: int(r.VB)})
+				return &cbsim.Action{Hold: reqHoldCh, Async: true}
 			}
 			R, ok := spec.Rollbacks[int(r.VB)]
 			at := spec.RollbackAt[int(r.VB)]
@@ -647,6 +694,14 @@ func RunSession(spec *SessSpec) *Trace {
 			ck.TIdleRet = evlog.Tick()
 			ck.IdleWrites = s.writeCount() - w0
 			tr.Checks = append(tr.Checks, ck)
+		case "releasereq":
+			close(reqHoldCh)
+		case "waithold":
+			hx.WaitFor(8*time.Second, func() bool { return env.Log.Count("sim.hold") >= st.N })
+		case "metrics":
+			s.readMetrics()
+		case "waitstop": // wait (bounded) for the client to stop on its own
+			full.WaitStartReturn(time.Duration(st.Ms) * time.Millisecond)
 		case "read":
 			s.readOffsets()
 		case "readers":
